@@ -484,6 +484,68 @@ func extractC10() {
 			return true
 		})
 	}
+	// relayFrames: where ReadFrame is called from (a goroutine of its own, or inline in the reader's
+	// loop), and the arms of the reader's select
+	var readSites []string
+	var readerArms []string
+	if fd := funcDecl(relay, "relay", "relayFrames"); fd != nil {
+		param := ""
+		if ps := fd.Type.Params.List; len(ps) > 0 && len(ps[0].Names) > 0 {
+			param = ps[0].Names[0].Name
+		}
+		var walk func(n ast.Node, ctx string)
+		walk = func(n ast.Node, ctx string) {
+			ast.Inspect(n, func(x ast.Node) bool {
+				switch y := x.(type) {
+				case *ast.GoStmt:
+					if fl, ok := y.Call.Fun.(*ast.FuncLit); ok {
+						walk(fl.Body, "go")
+						return false
+					}
+				case *ast.FuncLit:
+					walk(y.Body, ctx+"+lit")
+					return false
+				case *ast.CallExpr:
+					if se, ok := y.Fun.(*ast.SelectorExpr); ok && se.Sel.Name == "ReadFrame" {
+						readSites = append(readSites, ctx)
+					}
+				}
+				return true
+			})
+		}
+		walk(fd.Body, "inline")
+		// the select of the reader's own loop (not the writer goroutine's)
+		for _, st := range fd.Body.List {
+			fs, ok := st.(*ast.ForStmt)
+			if !ok {
+				continue
+			}
+			for _, b := range fs.Body.List {
+				sel, ok := b.(*ast.SelectStmt)
+				if !ok {
+					continue
+				}
+				for _, c := range sel.Body.List {
+					cc := c.(*ast.CommClause)
+					if cc.Comm == nil {
+						readerArms = append(readerArms, "default")
+						continue
+					}
+					arm := oneLine(src(cc.Comm))
+					if i := strings.Index(arm, "<-"); i >= 0 {
+						arm = strings.TrimSpace(arm[i+2:])
+					}
+					if arm == param && param != "" {
+						arm = "PARAM"
+					}
+					readerArms = append(readerArms, "<-"+arm)
+				}
+			}
+		}
+	}
+	g.def("readFrameSites", "List String", leanList(readSites))
+	g.def("readerSelectArms", "List String", leanList(readerArms))
+
 	var capRows []string
 	for _, k := range []string{"readerDone", "writerErr", "frameReady"} {
 		v, ok := caps[k]
